@@ -23,7 +23,7 @@ def gen_tree(rng, depth=0, max_depth=4, blanks=True, comments=True, pis=False, a
         if key in seen or (a_ns, a_name) in [(x[0], x[1]) for x in attrs]:
             continue
         seen.add(key)
-        attrs.append([a_ns, a_name, rng.choice(TEXTS)])
+        attrs.append([a_ns, a_name, rng.choice(TEXTS + ['', '', '0', ' '])])
     children = []
     if depth < max_depth:
         for _ in range(rng.choice([0, 1, 1, 2, 3, 4])):
